@@ -276,15 +276,16 @@ static void compare(struct context_data *ctx, struct snapshot *s, int opidx, con
 			continue;
 		if (memcmp(sd->begin, sd->copy, sd->size) != 0) {
 			size_t k;
-			int lo = 0, hi = -1;	/* legal invert-loop range [lo,hi) in data-relative bytes */
-			int legal = 0;
-			if (HAS_QUIRK(QUIRK_PROTRACK | QUIRK_INVLOOP) && (~b->flg & XMP_SAMPLE_16BIT) &&
-			    (multi ? has_invloop_fx : (invloop_active_on(ctx, i) || 0))) {
+			int lo = 0, hi = -1;	/* invert-loop range [lo,hi) in data-relative bytes */
+			int legal = 0, inrange = 0;
+			if (HAS_QUIRK(QUIRK_PROTRACK | QUIRK_INVLOOP) && (~b->flg & XMP_SAMPLE_16BIT)) {
 				if (b->flg & XMP_SAMPLE_LOOP) {
-					lo = b->lps; hi = b->lpe; legal = 1;
+					lo = b->lps; hi = b->lpe; inrange = 1;
 				} else if ((b->flg & XMP_SAMPLE_SLOOP) && m->xtra) {
-					lo = m->xtra[i].sus; hi = m->xtra[i].sue; legal = 1;
+					lo = m->xtra[i].sus; hi = m->xtra[i].sue; inrange = 1;
 				}
+				/* tolerated only while the effect is applied to this sample */
+				legal = inrange && (multi ? has_invloop_fx : invloop_active_on(ctx, i));
 			}
 			for (k = 0; k < sd->size; k++) {
 				long o = (long)k - sd->pre;
@@ -301,6 +302,11 @@ static void compare(struct context_data *ctx, struct snapshot *s, int opidx, con
 				if (legal && o == hi && sd->begin[k] == (unsigned char)(sd->copy[k] ^ 0xff)) {
 					fail("invloop-past-loop-end", opidx, opname,
 					     "sample %ld: invert-loop flipped the byte AT the loop end (offset %ld, loop end %ld), outside the loop", i, o, hi);
+					continue;
+				}
+				if (inrange && !legal && o >= lo && o < hi && sd->begin[k] == (unsigned char)(sd->copy[k] ^ 0xff)) {
+					fail("invloop-while-off", opidx, opname,
+					     "sample %ld: byte at offset %ld inside its loop was inverted although no channel applies invert-loop (speed > 0) to it%.0ld", i, o, 0);
 					continue;
 				}
 				{
@@ -412,8 +418,10 @@ static void inv_after(struct context_data *ctx)
 		struct channel_data *xc = &p->xc_data[c];
 		int present = xc->smp >= 0 && xc->smp < mod->smp && xc->smp < MAXSMP;
 		struct xmp_sample *x = present ? &mod->xxs[xc->smp] : NULL;
-		if (xc->invloop.speed <= 0 || xc->invloop.speed > 15 || xc->ins >= mod->ins || xc->ins < 0)
+		if (xc->invloop.speed < 0 || xc->invloop.speed > 15 || xc->ins >= mod->ins || xc->ins < 0)
 			continue;
+		if (xc->invloop.speed == 0 && inv_count0[c] < 128)
+			continue;	/* effect off and nothing pending: update_invloop cannot do anything */
 		printf("inv %ld %d %d %d %d %d %d %d ", n_calls, c, xc->invloop.speed, inv_count0[c], inv_pos0[c],
 		       xc->invloop.count, xc->invloop.pos, xc->smp);
 		if (present)
